@@ -130,6 +130,8 @@ class QuantizedTanh(QuantizedBits):
       self, quantizer: quantizers.quantized_tanh):
     self.mode = 0
     self.bits = quantizer.bits
+    # values are in [-1, 1): no integer bits
+    self.int_bits = 0
     self.is_signed = 1
 
   def convert_to_qkeras_quantizer(
